@@ -1,4 +1,8 @@
 """C02: scores are the exact joint log-density defined by the program."""
+import jax
+import jax.numpy as jnp
+from genjax import Diff, Update
+
 from verif import gfi, programs as PG
 from verif.engine import Ob
 
@@ -34,4 +38,16 @@ def obligations(tier, seed):
                       note="assess(chm(vals), args) == reference joint log-density and return value, all args and values symbolic"))
         obs.append(Ob(f"C02/importance-full=ref/{nm}", f_imp, (gfi.KEY, P.args, P.example_vals()), assume=lambda k, a, v, A=A: A(a, v),
                       note="importance with a full constraint: trace score and weight == reference joint log-density"))
+        if "update" in P.supports:
+            args2 = jax.tree_util.tree_map(lambda x: x + 0.25 if jnp.issubdtype(x.dtype, jnp.floating) else x, P.args)
+
+            def f_upd(key, args, vals, vals2, args2, P=P):
+                tr, _ = P.gf.importance(key, P.chm(vals), args)
+                tr2, w, rd, bwd = Update(P.chm(vals2, subset=(0,))).edit(key, tr, Diff.unknown_change(args2))
+                r = P.ref(args2, gfi.trace_vals(P, tr2))
+                return (tr2.get_score(),), (r.score,)
+
+            obs.append(Ob(f"C02/update-score=ref/{nm}", f_upd, (gfi.KEY, P.args, P.example_vals(), gfi.perturb_vals(P), args2), assume=lambda k, a, v, v2, a2, A=A: A(a, v) + A(a2, v2),
+                          note="importance(full); update(first site, new args): the new trace's score == reference joint log-density at its own values and the new args"))
+            obs += gfi.update_at_index_obs("C02", nm, P, mode="score")
     return obs
